@@ -17,7 +17,8 @@ CONN_ACTIONS = ["AcceptOk", "AcceptFail", "ConnClose", "RecvFrame", "RecvPartial
                 "PeerAbort", "Release", "Credit", "HalfTick", "CloseCmd", "Flush",
                 "TakeOne", "IdleTimeout", "Dispatch", "ReadShort", "ReadEof", "WriteOne", "WritePartial",
                 "WriteTimeout", "WriteError", "Flushed", "ServiceYield", "Enqueue"]
-DGRAM_ACTIONS = ["DRecv", "DRecvShort", "DRecvReply", "DRelease", "DSend"]
+DGRAM_ACTIONS = ["DRecv", "DRecvShort", "DRecvReply", "DRecvBig", "DRelease", "DSend", "DReconf",
+                 "SpuriousReadable", "SendError"]
 SIZE_DEVS = ["D_no_edns_uses_server_hint", "D_trunc_opt_over_limit"]
 ALL_DEVS = SIZE_DEVS + ["D_queue_full_drop"]
 
@@ -72,6 +73,10 @@ def run(ctx):
     mc = ctx.tlc("MC_ServerConn", "MC_ServerAccept", workers=8, label="mc-accept")
     ctx.require_ok(mc, "MC_ServerAccept")
     ctx.require_actions(mc, ["AcceptOk", "AcceptFail", "AcceptRefuse", "AcceptError", "ConnClose"])
+    # ServiceFeedback::Reconfigure: the idle timer uses the value in force
+    mc = ctx.tlc("MC_ServerConn", "MC_ServerReconf", workers=8, label="mc-reconf")
+    ctx.require_ok(mc, "MC_ServerReconf")
+    ctx.require_actions(mc, ["IdleTimeout", "ServiceYield", "WriteOne"])
     mc = ctx.tlc("MC_ServerConn", "MC_ServerDgram", workers=4, label="mc-dgram")
     ctx.require_ok(mc, "MC_ServerDgram")
     ctx.require_actions(mc, DGRAM_ACTIONS)
@@ -142,7 +147,7 @@ def run(ctx):
     # Framed under partial writes: the same behaviours with a transport that
     # accepts 1, 3 or 64 octets per write (what the peer sees at quiescence
     # must not depend on how the transport chops the writes)
-    for ch in ([1, 2, 3, 64] if thorough else [1, 3, 64]):
+    for ch in ([1, 2, 3, 64] if thorough else [1, 64]):
         ctx.replay_cases("replay_server", beh, args=["--chunk", str(ch)],
                          label="behaviours-chunk%d" % ch)
 
